@@ -45,3 +45,4 @@ Proof.
   split; [|vm_compute; reflexivity].
   intros n lit [H|[H|[H|[H|[H|[]]]]]]; inversion H; reflexivity.
 Qed.
+Print Assumptions C05_undefined_word_verbatim.
